@@ -299,6 +299,10 @@ static int pad_pkcs1(bn_t m, size_t *p_len, size_t m_len, size_t k_len,
 			case RSA_SIG:
 				/* EB = 00 | 01 | PS | 00 | D. */
 				id = hash_id(MD_MAP, &len);
+				if (k_len < m_len + len + 11) {
+					/* Modulus too short for at least 8 bytes of padding. */
+					break;
+				}
 				bn_zero(m);
 				bn_lsh(m, m, 8);
 				bn_add_dig(m, m, RSA_PRV);
@@ -361,7 +365,7 @@ static int pad_pkcs1(bn_t m, size_t *p_len, size_t m_len, size_t k_len,
 							}
 							*p_len = k_len - m_len;
 							bn_mod_2b(m, m, m_len * 8);
-							if (r == 0 && m_len == RLC_MD_LEN && counter >= 8) {
+							if (r == 0 && m_len == RLC_MD_LEN && counter > 8) {
 								result = RLC_OK;
 							}
 						}
@@ -389,7 +393,7 @@ static int pad_pkcs1(bn_t m, size_t *p_len, size_t m_len, size_t k_len,
 						bn_mod_2b(t, t, 8);
 						if (bn_is_zero(t)) {
 							bn_mod_2b(m, m, m_len * 8);
-							if (m_len == RLC_MD_LEN && counter >= 8) {
+							if (m_len == RLC_MD_LEN && counter > 8) {
 								result = RLC_OK;
 							}
 						}
